@@ -175,6 +175,11 @@ func (v *V2) ReadIndex(path string) ([]byte, error) {
 	var idFile *os.File
 	var err error
 	if idFile, err = os.OpenFile(path, os.O_RDONLY, 0); err != nil {
+		if os.IsNotExist(err) {
+			// The index is written without fsync: it can be missing after a crash.
+			// Report it as corrupted so that it gets rebuilt from the txn file
+			return nil, errors.Wrapf(ErrDataCorrupted, "missing segment index file %s", path)
+		}
 		return nil, errors.Wrapf(err, "failed to open segment index file %s", path)
 	}
 	var indexBuf []byte
@@ -185,6 +190,9 @@ func (v *V2) ReadIndex(path string) ([]byte, error) {
 	}
 	if err = idFile.Close(); err != nil {
 		return nil, errors.Wrapf(err, "failed to close segment index file %s", path)
+	}
+	if uint32(len(indexBuf)) < v.GetIndexHeaderSize() {
+		return nil, errors.Wrapf(ErrDataCorrupted, "truncated segment index file %s", path)
 	}
 	expectedCrc := ReadInt(indexBuf, 0)
 	actualCrc := crc.Checksum(0).Update(indexBuf[v.GetIndexHeaderSize():]).Value()
